@@ -291,4 +291,33 @@ theorem arc_objective_eq_cost (I : ArcInst) (hw : WF I) (x : Vec) (hx : IsBin I.
   simp only [Nat.zero_add] at h
   exact h
 
+/-! ## non-vacuity -/
+
+/-- the instance `C03.nv_I` (reachable graph `C15.nv_g`: depot + two customers with windows), its grid obtained
+    through `add_time_points` from an unsorted list -/
+def nv_I : ArcInst := ({ g := C15.nv_g, T := [] } : ArcInst).addTimePoints [6, 0, 8, 2]
+
+example : nv_I.T = [0, 2, 6, 8] ∧ nv_I.T = C03.nv_I.T ∧ nv_I.g = C03.nv_I.g := ⟨by decide +kernel, by decide +kernel, rfl⟩
+
+/-- the standing assumption `WF` of every theorem of C05 / C05b / C05c holds -/
+theorem nv_wf : WF nv_I := ⟨by decide +kernel, by decide +kernel, C15.nv_inv⟩
+
+/-- `d@0 → a@2 → b@6 → d@8` -/
+def nv_x : Vec := vecOf [1, 0, 0, 0, 1, 0, 1, 0, 0]
+theorem nv_x_bin : IsBin nv_I.data.n nv_x := by unfold IsBin; decide +kernel
+
+example : nv_I.data.n = 9 ∧ sel nv_I nv_x = [(0, 0, 1, 2), (1, 2, 2, 6), (2, 6, 0, 8)] := by decide +kernel
+
+/-- `arc_feasible_iff_local`, `sel_admissible`, `arc_objective_eq_cost` instantiated -/
+example : Local nv_I nv_x := (arc_feasible_iff_local nv_I nv_wf nv_x nv_x_bin).1 (by decide +kernel)
+
+example : nv_I.admissible (1, 2, 2, 6) = true := sel_admissible nv_I nv_wf nv_x _ (by decide +kernel)
+
+example : nv_I.data.objective nv_x = 4 := by
+  rw [arc_objective_eq_cost nv_I nv_wf nv_x nv_x_bin]; decide +kernel
+
+/-- the other side of the equivalence is inhabited too: dropping the last move breaks flow conservation at `(b, 6)` -/
+example : ¬ Local nv_I (vecOf [1, 0, 0, 0, 1]) := fun h =>
+  absurd ((arc_feasible_iff_local nv_I nv_wf _ (by unfold IsBin; decide +kernel)).2 h) (by decide +kernel)
+
 end Vrp.C05
